@@ -88,6 +88,18 @@ def run(ctx):
         ctx.count(sb.cfg_key(cfg), r.error is None and r.history is not None and len(r.history.beta) >= 2, kind=f"float32/{cfg['kind']}/{cfg['ns']}")
         check_schedule(r, tag="float32:")
     ctx.extra["float32_runs_checked"] = n32
+    # a positive tolerance below the spacing of the floats around the bracket (finding F58, repaired; Coq: C06_bisection_adjacent_floats_f64):
+    # the bisection cannot shrink a bracket of adjacent floats; it must stop there instead of spinning
+    cfg58 = dict(kind="base", ns="numpy", width="float64", N=8, dims=1, s=0.5, c=0.5, prior="normal", seed=7, mcmc_steps=1, ckpt="none",
+                 sample_kwargs=dict(adaptive=True, beta_tolerance=1e-17))
+    r58 = sr.do_run(cfg58, budget_s=3)
+    ctx.count(("tolerance-below-float-spacing",), True, kind="tolerance-below-float-spacing")
+    if r58.error is None:
+        check_schedule(r58, tag="tolerance-below-float-spacing:")
+    else:
+        ctx.violation("spins:tolerance-below-float-spacing" if r58.error[0] == "watchdog" else f"raises:tolerance-below-float-spacing:{r58.error[0]}",
+                      f"adaptive run with beta_tolerance=1e-17: {'did not finish within 3 s of CPU time (bisection loop)' if r58.error[0] == 'watchdog' else r58.error[:2]}",
+                      {"cfg": cfg58})
     # direct sweep: fixed schedule of n steps for every n (cheap populations)
     bad = []
     for nsteps in sweep:
